@@ -247,7 +247,7 @@ PROPS = {
 
 
 # Every sharded ASan+UBSan stage is run a second time against the library compiled the way the repository itself compiles it
-# (RelWithDebInfo: -O2 -DNDEBUG, flavour asanR): every fourth case in the quick tier, every case in the thorough tier.
+# (RelWithDebInfo: -O2 -DNDEBUG, flavour asanR): every fourth case (k mod 4 = seed mod 4) in both tiers.
 # C20's differential fold gets a third build (-O2 -DNDEBUG, zero-filled locals) whose output digests must equal the others';
 # C19 runs its rounds under a -O2 -DNDEBUG ThreadSanitizer build as well in the thorough tier.
 for _p, _cfg in PROPS.items():
@@ -256,10 +256,10 @@ for _p, _cfg in PROPS.items():
         if _st.get('flavour') == 'asan' and _st.get('runner', 'shards') == 'shards':
             _r = dict(_st)
             _r['flavour'] = 'asanR'
-            _r['subsample'] = dict(quick=4, thorough=1)
+            _r['subsample'] = dict(quick=4, thorough=4)
             _extra.append(_r)
     _cfg['stages'] = list(_cfg['stages']) + _extra
     if _extra:
-        _cfg['level_note'] += ' Every sharded ASan+UBSan stage runs twice: library and harness compiled -O1 with assertions enabled, and compiled as the repository compiles itself (-O2 -DNDEBUG; every fourth case in the quick tier, every case in the thorough tier).'
+        _cfg['level_note'] += ' Every sharded ASan+UBSan stage runs twice: library and harness compiled -O1 with assertions enabled, and compiled as the repository compiles itself (-O2 -DNDEBUG; every fourth case, k mod 4 = seed mod 4, in both tiers).'
 PROPS['C20']['stages'].append(dict(driver='drv_uninit', flavour='plainR0', fold_feature='case_digest_fold'))
 PROPS['C19']['stages'].append(dict(driver='drv_threads', flavour='tsanR', runner='tsan', shards=dict(quick=4, thorough=4), tiers=('thorough',)))
